@@ -13,6 +13,7 @@ CONSTANTS
   EmitMode = "none"
   Record = FALSE
   Eager = FALSE
+  BatchBug = FALSE
 INVARIANTS TypeOK PerSeriesOrder NoDup NoDropLeak Conservation ShardFifo Complete
 PROPERTIES Terminates
 CHECK_DEADLOCK FALSE
